@@ -35,12 +35,12 @@ Proof.
   pose proof (Z.mod_pos_bound (num + den - 1) den Hd). lia.
 Qed.
 
-Lemma far_enough_sound a u bound tf p :
-  0 < a -> 0 < u ->
-  far_enough a bound (cdivZ bound (a * (u * u))) tf (coarse u tf) (p, coarse u p) = true ->
-  bound <= a * sqd tf p.
+Lemma far_enough_sound a c u bound tf p :
+  0 < a -> 0 < u -> 0 <= c ->
+  far_enough a c bound (cdivZ bound (a * (u * u))) tf (coarse u tf) (p, coarse u p) = true ->
+  bound <= a * sqd tf p + c.
 Proof.
-  intros Ha Hu. unfold far_enough. cbn [fst snd].
+  intros Ha Hu Hc0. unfold far_enough. cbn [fst snd].
   destruct (Z.leb_spec (cdivZ bound (a * (u * u))) (lbd (coarse u tf) (coarse u p))) as [Hle|Hgt].
   - intros _. pose proof (lbd_sound u tf p Hu) as Hl.
     pose proof (cdivZ_ge bound (a * (u * u)) ltac:(nia)) as Hc.
@@ -49,29 +49,30 @@ Proof.
   - intros H. apply Z.leb_le. exact H.
 Qed.
 
-Lemma forallb_far_enough a u bound tf srcs : 0 < a -> 0 < u ->
-  forallb (far_enough a bound (cdivZ bound (a * (u * u))) tf (coarse u tf)) (with_coarse u srcs) = true ->
-  forallb (fun ds => bound <=? a * ds) (map (sqd tf) srcs) = true.
+Lemma forallb_far_enough a c u bound tf srcs : 0 < a -> 0 < u -> 0 <= c ->
+  forallb (far_enough a c bound (cdivZ bound (a * (u * u))) tf (coarse u tf)) (with_coarse u srcs) = true ->
+  forallb (fun ds => bound <=? a * ds + c) (map (sqd tf) srcs) = true.
 Proof.
-  intros Ha Hu H. rewrite forallb_forall in *. intros ds Hds. apply in_map_iff in Hds. destruct Hds as (p & <- & Hp).
-  apply Z.leb_le. apply (far_enough_sound a u bound tf p Ha Hu). apply H. unfold with_coarse. apply in_map_iff.
+  intros Ha Hu Hc0 H. rewrite forallb_forall in *. intros ds Hds. apply in_map_iff in Hds. destruct Hds as (p & <- & Hp).
+  apply Z.leb_le. apply (far_enough_sound a c u bound tf p Ha Hu Hc0). apply H. unfold with_coarse. apply in_map_iff.
   exists p. split; [reflexivity|exact Hp].
 Qed.
 
 (* the fast test implies the reference test on the exact distance list *)
-Lemma accept_fast_sound a b r2 u tf srcs i :
-  accept_fast a b r2 u tf (with_coarse u srcs) i = true -> accept_list a b r2 (map (sqd tf) srcs) i = true.
+Lemma accept_fast_sound a b c r2 u tf srcs i :
+  accept_fast a b c r2 u tf (with_coarse u srcs) i = true -> accept_list a b c r2 (map (sqd tf) srcs) i = true.
 Proof.
   unfold accept_fast, accept_list. unfold with_coarse at 1 3. rewrite !map_length.
-  intros H. apply andb_true_iff in H. destruct H as [H0 H]. apply andb_true_iff in H0. destruct H0 as [Ha Hu].
-  apply Z.ltb_lt in Ha. apply Z.ltb_lt in Hu.
+  intros H. apply andb_true_iff in H. destruct H as [H0 H]. apply andb_true_iff in H0. destruct H0 as [H0 Hc0].
+  apply andb_true_iff in H0. destruct H0 as [Ha Hu].
+  apply Z.ltb_lt in Ha. apply Z.ltb_lt in Hu. apply Z.leb_le in Hc0.
   destruct (Nat.ltb_spec i (length srcs)) as [Hlt|Hge].
   - apply andb_true_iff in H. destruct H as [H1 H2]. apply andb_true_iff. split; [|].
     + assert (E : nth i (map (sqd tf) srcs) 0 = sqd tf (fst (nth i (with_coarse u srcs) pt0))).
       { unfold with_coarse. rewrite (nth_indep _ pt0 ((fun q => (q, coarse u q)) (0, 0, 0))) by (rewrite map_length; exact Hlt).
         rewrite (map_nth (fun q => (q, coarse u q))). cbn [fst].
         rewrite (nth_indep _ 0 (sqd tf (0, 0, 0))) by (rewrite map_length; exact Hlt). rewrite (map_nth (sqd tf)). reflexivity. }
-      rewrite E. apply (forallb_far_enough a u _ tf srcs Ha Hu). exact H1.
+      rewrite E. apply (forallb_far_enough a c u _ tf srcs Ha Hu Hc0). exact H1.
     + assert (E : nth i (map (sqd tf) srcs) 0 = sqd tf (fst (nth i (with_coarse u srcs) pt0))).
       { unfold with_coarse. rewrite (nth_indep _ pt0 ((fun q => (q, coarse u q)) (0, 0, 0))) by (rewrite map_length; exact Hlt).
         rewrite (map_nth (fun q => (q, coarse u q))). cbn [fst].
@@ -79,13 +80,13 @@ Proof.
       rewrite E. exact H2.
   - apply andb_true_iff in H. destruct H as [H1 H2]. apply andb_true_iff.
     split; [unfold with_coarse in H1; rewrite map_length in H1; exact H1|].
-    apply (forallb_far_enough a u _ tf srcs Ha Hu). exact H2.
+    apply (forallb_far_enough a c u _ tf srcs Ha Hu Hc0). exact H2.
 Qed.
 
 (* ... hence the contract, for the exact distances to the listed source coordinates *)
-Lemma accept_fast_contract a b r2 u tf srcs i :
-  accept_fast a b r2 u tf (with_coarse u srcs) i = true ->
-  knn_spec_tol a b r2 (fun s => sqd tf (nth s srcs (0, 0, 0))) (seq 0 (length srcs)) i.
+Lemma accept_fast_contract a b c r2 u tf srcs i :
+  accept_fast a b c r2 u tf (with_coarse u srcs) i = true ->
+  knn_spec_tol a b c r2 (fun s => sqd tf (nth s srcs (0, 0, 0))) (seq 0 (length srcs)) i.
 Proof.
   intros H. apply accept_fast_sound in H. apply accept_list_sound.
   replace (map (fun s => sqd tf (nth s srcs (0, 0, 0))) (seq 0 (length srcs))) with (map (sqd tf) srcs); [exact H|].
